@@ -64,6 +64,8 @@ class RatePlan:
     def at(self, cyc):
         while self.i + 1 < len(self.phases) and cyc >= self.phases[self.i][1]:
             self.i += 1
+        if cyc >= self.phases[-1][1]:
+            return (1.0, 1.0)        # plan exhausted: let everything through (a phase with probability 0 must not last for ever)
         return self.phases[self.i][2]
 
 
@@ -198,9 +200,13 @@ def run_case(c):
               fsm_states=sorted(state["fsm_states"]), fsm_transitions=state["trans"], roundtrips=state["roundtrips"], cycles=cycles)
     enc = dict(dut.fifo.fsm.encoding) if has_fsm else {}
     pump = bool(set(st["fsm_states"]) & {enc.get("PUMP_PRECONVERTER"), enc.get("DRAIN_POSTCONVERTER")})
+    from collections import Counter
     perm = (len(got) == state["sent"] and sorted(got) == sorted(words[:len(got)]))
+    sub = not (Counter(got) - Counter(words[:state["sent"]]))      # nothing invented, nothing duplicated
     for x in v:
         x["output_is_permutation_of_input"] = perm
+        x["output_is_submultiset_of_input"] = sub
+        x["words_still_inside"] = state["sent"] - len(got)
         x["bypass"] = c["bypass"]
         x["ratio"] = ratio
         x["visited_pump_or_drain_state"] = pump
